@@ -42,7 +42,7 @@ def generate(ctx):
     fd["route"] = "path"
     chunked = tape.boolean("chunked", 1, 4)
     k = (1 + tape.draw(fd["size"] + 2, "chunk_k")) if chunked else None
-    ops = L.gen_program(ctx, fd, [fd["n_records"]], 7 if thorough else 5, allow_item=False)
+    ops = L.gen_program(ctx, fd, [fd["n_records"]], 7 if thorough else 5, allow_item=False, allow_setctx=True)
     # make sure field access is well represented: prepend some GETs in a drawn order
     fmt = T.FORMATS[fd["format"]]
     pre = []
@@ -428,7 +428,7 @@ def execute(ctx, sc):
             nv += 1
     for j, op in enumerate(ops):
         targets = sorted(set(operands_of(op)))
-        if op["op"] == "setattr":
+        if op["op"] in ("setattr", "setctx"):
             # explicit attribute assignment changes its target (excluded by the property) — and nothing else:
             # every OTHER variable is bracketed
             targets = [t for t in range(n_vars_before[j]) if t != op["src"]]
@@ -456,7 +456,7 @@ def execute(ctx, sc):
                           "before": core.short(before[t].get(which), 400),
                           "after": core.short(after[t].get(which) if isinstance(after[t], dict) else after[t], 400)})
                 raise Violation("operand_unchanged", f"{fmt.name}.{op['op']}.{which}", d)
-        if op["op"] == "setattr":
+        if op["op"] in ("setattr", "setctx"):
             continue
         # twice-applied equality
         w2 = L.World(f, lazy, sc["chunk_k"])
